@@ -181,6 +181,37 @@ theorem foldl_get (base : Cid → Resources) (us : List Update) :
       · have hc' : ¬ u.containerId = c := fun h => hc h.symm
         simp [hc, hc']
 
+theorem appliedFrom_mem (base : Cid → Resources) (us : List Update) :
+    ∀ (s : Sim), ∀ v ∈ appliedFrom base s us, v ∈ us ∧ ∃ r, v.resources = some r := by
+  induction us with
+  | nil => intro s v hv; cases hv
+  | cons u rest ih =>
+    intro s v hv
+    simp only [appliedFrom, List.mem_append] at hv
+    rcases hv with hv | hv
+    · split at hv
+      · rename_i happ
+        simp only [List.mem_singleton] at hv
+        subst hv
+        obtain ⟨r, hr, _⟩ := applies_some s v happ
+        exact ⟨List.mem_cons_self, r, hr⟩
+      · cases hv
+    · obtain ⟨h1, h2⟩ := ih _ v hv
+      exact ⟨List.mem_cons_of_mem _ h1, h2⟩
+
+/-- an update that names a taken item is not applied -/
+theorem not_applies_of_taken (s : Sim) (u : Update) (it : Item) (hit : it ∈ setsUpd u)
+    (ht : (u.containerId, it) ∈ s.taken) : applies s u = false := by
+  cases happ : applies s u with
+  | false => rfl
+  | true =>
+    exfalso
+    obtain ⟨r, _, hfree⟩ := applies_some s u happ
+    have hall := (takeWhile_length_eq_iff _ _).1
+      (by rw [show List.takeWhile _ (setsUpd u) = freeOf s u from rfl, hfree]) it hit
+    simp only [Bool.not_eq_true', List.contains_eq_mem, decide_eq_false_iff_not] at hall
+    exact hall ht
+
 theorem taken_mono (base : Cid → Resources) (s : Sim) (u : Update) (x : Cid × Item) (h : x ∈ s.taken) :
     x ∈ (simUpdate base s u).taken := by
   obtain ⟨c, it⟩ := x
